@@ -1867,9 +1867,13 @@ class GroupBy:
         """
         # check for nullity
         kwargs = dict(agg_func=agg_func, margins=margins, values=values)
-        return self.agg(**kwargs, mask=subset_mask & global_mask) / self.agg(
-            **kwargs, mask=global_mask
-        )
+        if global_mask is None:
+            mask = subset_mask
+        else:
+            # `&` of two pandas Series aligns them by label: make sure they are aligned
+            _validate_input_lengths_and_indexes([subset_mask, global_mask])
+            mask = subset_mask & global_mask
+        return self.agg(**kwargs, mask=mask) / self.agg(**kwargs, mask=global_mask)
 
     @groupby_method()
     def density(
